@@ -5,7 +5,7 @@ import numpy as np
 from hypothesis import strategies as st
 
 from .. import repo, strategies as S, tmcases as T, trcases as TR
-from ..core import SubCheck, Fail, Discard, metric, target
+from ..core import SubCheck, Fail, Discard, metric, target, is_seq
 from ..oracles import tm_exact, helmert_ref as H, geodesic_exact as G
 from .C03 import closed_form
 
@@ -51,7 +51,7 @@ def _call(direction, case, zone, east, north, h="case", vcv="case"):
     if vv is not None:
         kw["vcv"] = vv if isinstance(vv, np.ndarray) else np.array(vv, dtype=float)     # an ndarray is passed as it is
     r = f(*args, **kw)
-    if not (isinstance(r, tuple) and len(r) == 5):
+    if not is_seq(r, 5):
         raise Fail("transform_mga* did not return (zone, east, north, height, vcv)", observed=repr(r))
     return r
 
@@ -101,11 +101,12 @@ def check_definition(case):
     h = case.get("h")
     got = _call(d1, case, z, e, n, vcv=None)
     (lat, lon), (lat2, lon2, h2), (zone2, e2, n2) = _stepwise(d1, z, e, n, h)
-    want_h = round(h2, 4) if h is not None else 0
-    if (got[0], got[1], got[2]) != (zone2, e2, n2):
+    want_h = h2 if h is not None else 0
+    # same zone; coordinates within one unit of their 0.1 mm resolution plus rounding of an intermediate latitude / longitude
+    if got[0] != zone2 or abs(got[1] - e2) > 1.5e-4 or abs(got[2] - n2) > 1.5e-4:
         raise Fail("transform_mga* differs from the stepwise composition grid -> geographic -> Cartesian -> 7-parameter -> "
                    "geographic -> grid", expected=(zone2, e2, n2), observed=got[:3])
-    if h is not None and got[3] != want_h:
+    if h is not None and not abs(got[3] - want_h) <= 0.6e-4:
         raise Fail("returned height differs from the stepwise composition's height", expected=want_h, observed=got[3])
     # natural zone of the transformed position
     cm = -177.0 + (got[0] - 1) * 6.0
